@@ -102,6 +102,9 @@ type Machine struct {
 	fullPaths    int
 	opaqueLocs   map[string]*Loc
 	pendingFns   []string
+	asmNotes     []string
+	asmAccesses  int
+	asmSteps     int
 	noShortCircuit bool
 }
 
@@ -686,6 +689,9 @@ func (m *Machine) opaqueErr(name string) Iface {
 
 func (m *Machine) callFunction(fn *ssa.Function, args []Value, call ssa.Instruction, isDefer bool) {
 	if fn.Blocks == nil {
+		if m.callAsm(fn, args, call, isDefer) {
+			return
+		}
 		panic(unsupported{"external function " + fn.String()})
 	}
 	fr := &Frame{fn: fn, block: fn.Blocks[0], regs: make(map[ssa.Value]Value, 16), call: call, isDefer: isDefer}
